@@ -124,6 +124,9 @@ class ChartGen:
         if k.flags and c < 0.8:
             return r.choice(['v%d', 'not v%d', 'v%d']) % r.randrange(k.flags)
         opts = ['x % 2 == 0', 'x > y', 'x < 5', 'y % 3 != 1']
+        if k.shared_code and r.random() < 3 * k.shared_code:
+            # a text that is also the text of some contract condition and of some action
+            opts = ['x >= 0', 'x + 1 > x']
         if not k.no_state_names:
             opts.append("active('%s')" % r.choice(self.names))
         return r.choice(opts)
